@@ -270,6 +270,7 @@ def prop_C04(ctx, tier):
     K.check_lookup_expiry(run, ctx)  # expired purge leaves both (P2)
     S.check_random_victim(run, ctx)
     S.check_queue_dedupe(run, ctx)
+    S.check_victim_key_identity(run, ctx, 'C04-P5')
     _also_nostats(ctx, tier, run, [K.check_overflow_form, K.check_overflow_test_on_every_path, K.check_one_victim, K.check_store_pairing,
                                     K.check_replacement_before_overflow_test, S.check_random_victim, S.check_queue_dedupe])
     run.violations = [v for v in run.violations if v['rule'].startswith('C04') or v['rule'] == 'C06-P1']
@@ -289,6 +290,7 @@ def prop_C05(ctx, tier):
     K.check_memory_forms(run, ctx)
     K.check_memory_loop(run, ctx)
     S.check_estimators(run, ctx)
+    S.check_victim_key_identity(run, ctx, 'C05-P2')
     _also_nostats(ctx, tier, run, [K.check_memory_forms, K.check_memory_loop, S.check_estimators])
     W.check_memory_store_selected(run, ctx)
     return run
